@@ -25,12 +25,17 @@ for bid in ids:
     assert sh("git -C /repo apply /verif/benign/%s.patch" % bid).returncode == 0
     res = {}
     try:
+        r = sh("cd /verif && ./check all quick")
         for p in props:
-            r = sh("cd /verif && ./check %s quick" % p)
-            res[p] = r.returncode
-            if r.returncode != 0:
+            res[p] = 2
+        for l in r.stdout.splitlines():
+            if l.startswith("check: C"):
+                w = l.split()
+                res[w[1]] = int(w[4])
+        for p in props:
+            if res[p] != 0:
                 bad += 1
-                print(bid, p, "ALARM exit", r.returncode, [l for l in r.stdout.splitlines() if l.strip().startswith("rules=")][:1])
+                print(bid, p, "ALARM exit", res[p], [l for l in r.stdout.splitlines() if l.strip().startswith("rules=")][:2])
     finally:
         sh("git -C /repo checkout -- . && git -C /repo clean -fdq")
     meta["checks_exit"] = res
